@@ -33,7 +33,7 @@ def gen(tier, rng, shard, nshards):
         n = int(S.pick(rng, [1, 2, 3, 5, 8, 12, 20, 30, 40, 60] + (big if rng.random() < 0.15 else [])))
         yield {"n": n, "dt": S.pick(rng, ["f8", "f8", "c16"]), "family": S.pick(rng, ["simple", "indefinite", "log-indefinite", "repeated", "clustered"]),
                "seed": S.seed(rng), "start": S.pick(rng, ["generic", "generic", "eigvec", "few-eigvecs", "default", "batched", "batched-mixed"]),
-               "max_iters": S.pick(rng, ["1", "2", "n//2", "n-1", "n", "n+5", "default"]), "tol": float(S.pick(rng, [1e-12, 1e-12, 1e-8, 1e-5, 1e-3])),
+               "max_iters": S.pick(rng, ["1", "2", "n//2", "n-1", "n", "n+5", "default"]), "tol": float(S.pick(rng, [1e-12, 1e-12, 1e-8, 1e-5, 1e-3, 0.0, 1e-300])),
                "fn": S.pick(rng, ["lanczos", "lanczos", "lanczos", "lanczos_eigs", "Lanczos()"]),
                "scale": float(S.pick(rng, [1.0, 1.0, 1e6, 1e-6])), "real_start": bool(rng.random() < 0.3), "wide_start": bool(rng.random() < 0.25),
                "vscale": float(S.pick(rng, [1.0, 1.0, 1.0, 1e-12, 1e-30, 1e-9, 1e15])), "bwidth": S.pick(rng, ["3", "3", "2", "n"])}
@@ -289,6 +289,16 @@ def run_case(ctx, case):
         return
     ctx.check("returns", True)
     Qop, Top, info = out
+    if case["seed"] % 2 == 0:
+        # what a call returned is the caller's: a later call of the same shapes and dtypes (another operator, another start
+        # vector) leaves it alone (hashed now, verified after the later call, before the factorisation is judged)
+        ctx.retain(Qop, Top, label="lanczos-factorisation")
+        M2_ = (M + np.eye(n)).astype(M.dtype)
+        kw2 = dict(kw)
+        if "start_vector" in kw2:
+            kw2["start_vector"] = (np.asarray(kw2["start_vector"])[::-1] * 2).copy()
+        ctx.call(lanczos, cola.SelfAdjoint(cola.ops.Dense(M2_)), **kw2)
+        ctx.verify_guards(site="later-call-of-the-same-shapes")
     if not batched:
         judge_one(ctx, case, M, v_used, np.asarray(Qop.to_dense()), np.asarray(Top.to_dense()), lam, d, mi, preds, case["tol"])
         return
